@@ -111,6 +111,8 @@ PROPS["C09"] = {
     ] + [
         R("npt-exact", "pkg/headers", "pkg/headers", ["ZzC09RangeNPT"], flags={"qtimeout": 600000, "workers": 2}, quick_params={"KMAX": 255}, thorough_params={"KMAX": 2047}),
         R("npt-ideal", "pkg/headers", "pkg/headers", ["ZzC09RangeNPT"], flags={"solver": "cvc5-int", "fpreal": True, "qtimeout": 300000, "workers": 2}, params={"KMAX": 1 << 30}),
+        R("smpte", "pkg/headers", "pkg/headers", ["ZzC09RangeSMPTE"], flags={"concoff": True}, quick_params={"NSEC": 3, "FMAX": 12}, thorough_params={"NSEC": 8, "FMAX": 30}),
+        R("smpte-header", "pkg/headers", "pkg/headers", ["ZzC09RangeSMPTEHeader"], flags={"concoff": True}, quick_params={"NSEC": 1, "FMAX": 2}, thorough_params={"NSEC": 1, "FMAX": 10}),
         R("determinism", "pkg/headers", "pkg/headers", ["ZzC09TransportDeterministic", "ZzC09RangeDeterministic"], flags={"mapperm": True},
           quick_params={"NTOK": 2}, thorough_params={"NTOK": 3}, replay_repeat=400),
     ],
@@ -158,7 +160,7 @@ PROPS["C01"] = {
         R("write-paths", ".", "root", ["ZzC18ClientWriteRTP", "ZzC18StreamWriteRTP", "ZzC18SessionWriteRTP"], params={"GOSTUB": 1}, extras=_EXTRAS,
           quick_params={"P": 12, "MAXPS": 36}, thorough_params={"P": 40, "MAXPS": 80, "NR": 3}),
         R("fast-unmarshal", ".", "root", ["ZzC01FastUnmarshal"], params={"GOSTUB": 1}, extras=_EXTRAS, flags={"concoff": True},
-          quick_params={"P": 20}, thorough_params={"P": 40}),
+          quick_params={"P": 20}, thorough_params={"P": 28}),
     ],
 }
 PROPS["C19"] = {
@@ -180,7 +182,7 @@ PROPS["C04"] = {
     "level_note": 'Outside: text requests/responses and headers (length limits of header.go/body.go), WebSocket carrier, conn.Conn dispatch, payloads longer than the bounds.',
     "runs": [
         R("frames-allchunks", "pkg/base", "pkg/base", ["ZzC04Frames"], flags={"concoff": True}, quick_params={"P": 1}, thorough_params={"P": 2}),
-        R("frames-bytewise", "pkg/base", "pkg/base", ["ZzC04Frames"], flags={"concoff": True}, quick_params={"P": 12, "CHUNK1": 1}, thorough_params={"P": 20, "CHUNK1": 1}),
+        R("frames-bytewise", "pkg/base", "pkg/base", ["ZzC04Frames"], flags={"concoff": True}, quick_params={"P": 12, "CHUNK1": 1}, thorough_params={"P": 16, "CHUNK1": 1}),
         R("read-limited", "pkg/base", "pkg/base", ["ZzC04ReadLimited"], flags={"concoff": True}, quick_params={"P": 6}, thorough_params={"P": 8}),
         R("base64-stream", "internal/base64streamreader", "internal/base64streamreader", ["ZzC04Base64Stream"], flags={"concoff": True}, quick_params={"P": 2}, thorough_params={"P": 3}),
     ],
@@ -207,8 +209,8 @@ PROPS["C05"] = {
     "level_note": "Outside: the SDP TEXT layer (pion/sdp marshalling and the 750-line sdpunmarshaler string state machine: path-explosive for the interpreter), Session-level attributes and FEC groups, formats whose parameters are codec configuration blobs (H264/H265/MPEG-4), MIKEY key-mgmt attribute, totality of parsing on arbitrary SDP text.",
     "runs": [
         R("media-fmt%d" % f, "pkg/description", "pkg/description", ["ZzC05MediaRT"], flags={"concoff": True}, params={"FMT": f},
-          tiers=("quick", "thorough") if f in (0, 2, 4, 5) else ("thorough",))
-        for f in (0, 1, 2, 3, 4, 5)
+          tiers=("quick", "thorough") if f in (0, 2, 4, 5, 7, 8, 11, 16) else ("thorough",))
+        for f in range(19)
     ],
     "parallel": 3,
 }
@@ -261,6 +263,10 @@ PROPS["C15"] = {
     ] + [
         R("packetntp-%d" % r, "pkg/rtpreceiver", "pkg/rtpreceiver", ["ZzC15PacketNTP"], params={"RATE": r},
           flags={"solver": "cvc5-int", "workers": 2, "qtimeout": 120000},
+          tiers=("quick", "thorough") if r in (90000, 8000) else ("thorough",))
+        for r in _RATES
+    ] + [
+        R("packetntp-sign-%d" % r, "pkg/rtpreceiver", "pkg/rtpreceiver", ["ZzC15PacketNTPSign"], params={"RATE": r}, flags={"workers": 2, "qtimeout": 60000},
           tiers=("quick", "thorough") if r in (90000, 8000) else ("thorough",))
         for r in _RATES
     ],
